@@ -174,6 +174,19 @@ def candidates(st, tier):
     out += [tmpl('EMPTY_MAP', types=[NAT, comb(3)]), tmpl('EMPTY_MAP', types=[comb(3), NAT])]
     for a, b, body in LAMBDAS:
         out.append(tmpl('LAMBDA', types=[a, b], tail=[body]))
+    # instructions that build a NEW container / lambda type from a component type taken out of an annotated parent
+    if n >= 1:
+        top = st[0]
+        out.append(tmpl('SOME'))
+        if top[0] == 'list' and top[1][0] == 'pair':
+            out += [tmpl('MAP', tail=[[{'prim': 'CAR'}]]), tmpl('MAP', tail=[[{'prim': 'CDR'}]])]
+        if top[0] == 'list':
+            out.append(tmpl('ITER', tail=[[{'prim': 'DROP'}]]))
+    if n >= 2:
+        if st[1][0] == 'lambda':
+            out += [tmpl('EXEC'), tmpl('APPLY')]
+        if st[1][0] == 'list':
+            out.append(tmpl('CONS'))
     return out
 
 
@@ -199,6 +212,8 @@ def inits(tier):
         ('list-comb3', ('list', c3), (comb_val(3), comb_val(3, 4))),
         ('packed-comb3', BYTES, T.pack(c3, comb_val(3))),
         ('packed-comb4', BYTES, T.pack(c4, comb_val(4))),
+        ('lambda-pair', ('lambda', ('pair', NAT, NAT), NAT), ('lam', json.dumps([{'prim': 'CAR'}]))),
+        ('list-pair', ('list', ('pair', NAT, NAT)), ((1, 2), (3, 4))),
     ]
     if tier == 'thorough':
         out += [('comb5', comb(5), comb_val(5)), ('packed-comb5', BYTES, T.pack(comb(5), comb_val(5))),
